@@ -38,6 +38,9 @@ def doc_population(name):
 
 # optimizers whose population is variable by design (C10 statement)
 VARIABLE_SIZE = {'BeeColonyOptimization', 'ForestOptimizationAlgorithm', 'ImperialistCompetitiveOptimization'}
+# optimizers that cut the population into equal clusters: at sizes that are not a multiple of the cluster count
+# (outside C10's 1x/1.5x/2x/3x alphabet) they keep only the clustered agents
+REGROUPING = {'HenryGasSolubilityOptimization'}
 # optimizers that consult Agent.fitness / task direction in their update rule (C12 statement: Ant Lion)
 FITNESS_READERS = {'AntLionOptimization'}
 
